@@ -8,6 +8,7 @@ CONSTANT Masks = {0, 8, 63}
 INVARIANT InvOwnerIndependent
 INVARIANT InvDepsAlive
 INVARIANT InvAllStable
+INVARIANT InvEqualIffSameText
 INVARIANT InvEmit
 PROPERTY ScribbleLocal
 PROPERTY OwnKeepsValue
